@@ -94,13 +94,16 @@ def match_dekker_err(t):
             if not (_is(inner2, "add", 2) and _is(c2, "multiply", 2)):
                 continue
             for A, c1 in ((inner2[1], inner2[2]), (inner2[2], inner2[1])):
-                if not (_is(A, "add", 2) and _is(c1, "multiply", 2)):
+                if not (_is(c1, "multiply", 2) and (_is(A, "add", 2) or _is(A, "subtract", 2))):
                     continue
-                for negp, hh in ((A[1], A[2]), (A[2], A[1])):
-                    if not (_is(negp, "negative", 1) and _is(negp[1], "multiply", 2) and _is(hh, "multiply", 2)):
+                if _is(A, "subtract", 2):
+                    forms = [(A[2], A[1])]  # hh - p
+                else:
+                    forms = [(n_[1], h_) for n_, h_ in ((A[1], A[2]), (A[2], A[1])) if _is(n_, "negative", 1)]
+                for prod, hh in forms:
+                    if not (_is(hh, "multiply", 2) and (_is(prod, "multiply", 2) or _is(prod, "square", 1))):
                         continue
-                    prod = negp[1]
-                    x, y = prod[1], prod[2]
+                    x, y = (prod[1], prod[2]) if prod[0] == "multiply" else (prod[1], prod[1])
                     parts = []
                     ok = True
                     for f in (hh, c1, c2, ll):
@@ -117,8 +120,7 @@ def match_dekker_err(t):
                         parts.append(tuple(kinds))
                     if not ok:
                         continue
-                    want = sorted([(("h", x), ("h", y)), (("h", x), ("l", y)), (("l", x), ("h", y)), (("l", x), ("l", y))], key=repr)
-                    got = sorted([tuple(sorted(p, key=lambda q: (q[1] is not x, q[0]))) if x is not y else tuple(sorted(p, key=lambda q: q[0])) for p in parts], key=repr)
+                    want = [(("h", x), ("h", y)), (("h", x), ("l", y)), (("l", x), ("h", y)), (("l", x), ("l", y))]
                     # compare as multisets of unordered factor pairs
                     def norm(ps):
                         return sorted(sorted((k, id(v)) for k, v in p) for p in ps)
